@@ -1179,9 +1179,20 @@ class _iterinfo(object):
                         i += 1
                         if self.wdaymask[i] == rr._wkst:
                             break
-                if 1 in rr._byweekno:
-                    # Check week number 1 of next year as well
-                    # TODO: Check -numweeks for next year.
+                # The last days of this year may belong to week number 1 of
+                # next year, which is also its week number -N when next year
+                # has N weeks.
+                nextweek1 = 1 in rr._byweekno
+                if not nextweek1 and rr._byweekno[0] < 0:
+                    nyearweekday = (self.yearweekday+self.yearlen) % 7
+                    nno1wkst = (7-nyearweekday+rr._wkst) % 7
+                    if nno1wkst >= 4:
+                        nwyearlen = (self.nextyearlen +
+                                     (nyearweekday-rr._wkst) % 7)
+                    else:
+                        nwyearlen = self.nextyearlen-nno1wkst
+                    nextweek1 = -(nwyearlen//7+nwyearlen % 7//4) in rr._byweekno
+                if nextweek1:
                     i = no1wkst+numweeks*7
                     if no1wkst != firstwkst:
                         i -= 7-firstwkst
